@@ -107,3 +107,60 @@ class ReadBack:
         big = ca.vertcat(*[ca.vec(self.exprs[i]) for i in idx])
         J = ca.Function("J", [self.view.x, self.view.p], [ca.jacobian(big, self.view.x), big])
         return J
+
+
+def independence_defect(rb, view, spec, w):
+    """Are the physical coordinates of the discretisation independently assignable?
+
+    The states at the nodes (MultipleShooting) resp. at the integrator points and the helper states and algebraic values
+    at the collocation times (DirectCollocation), the controls and per-interval variables of every interval and the global
+    variables are separate degrees of freedom of the NLP: the Jacobian of their read-back with respect to the decision
+    vector has one independent row per coordinate.  A transcription that lets two of them share one decision variable
+    has lower rank (the NLP rows then still agree with the read-back, so only this count shows it).
+
+    -> (expected, rank) or None when not applicable"""
+    import casadi as ca
+    mt = spec["method"]
+    cls, N, M = mt["cls"], mt["N"], mt.get("M", 1)
+    if cls not in ("MS", "DC", "SS"):
+        return None
+    nel = lambda s: s["shape"][0] * s["shape"][1]
+    expected = 0
+    want = []
+    if cls == "MS":
+        for s in spec["states"]:
+            if not s.get("quad"):
+                expected += nel(s) * (N + 1)
+                want.append("xc:" + s["name"])
+    elif cls == "DC":
+        d = mt.get("degree", 1)
+        for s in spec["states"]:
+            if not s.get("quad"):
+                expected += nel(s) * (N * M + 1) + nel(s) * N * M * d
+                want += ["xi:" + s["name"], "xr:" + s["name"]]
+        for s in spec.get("algebraics", []):
+            # (the algebraic polynomial of an integration interval has d coefficients: its values at the d collocation
+            # times are the degrees of freedom, its value at the interval start follows from them)
+            expected += nel(s) * N * M * d
+            want += ["zr:" + s["name"]]
+    for s in spec["controls"]:
+        expected += nel(s) * N
+        want.append("uc:" + s["name"])
+    for s in spec["variables"]:
+        if s.get("role") == "horizon":
+            continue
+        if s.get("grid") == "control":
+            expected += nel(s) * (N + (1 if s.get("include_last") else 0))
+            want.append("vc:" + s["name"])
+        elif not s.get("grid"):
+            expected += nel(s)
+            want.append("v:" + s["name"])
+    rows = [ca.vec(e) for n, e in zip(rb.names, rb.exprs) if n in want]
+    if len([n for n in rb.names if n in want]) != len(want) or not rows:
+        return None
+    if not hasattr(rb, "_indep_fun"):
+        rb._indep_fun = ca.Function("J", [view.x, view.p], [ca.jacobian(ca.vertcat(*rows), view.x)])
+    J = np.array(ca.DM(rb._indep_fun(w, view.p0)), dtype=float)
+    if not np.all(np.isfinite(J)):
+        return None
+    return expected, int(np.linalg.matrix_rank(J))
